@@ -35,6 +35,8 @@ pub fn explore_pairs(w: &World, member: &str, regime: Regime, max_pairs: usize, 
     let mut index: HashMap<(u64, u64), usize> = HashMap::new();
     let a0 = w.initial[member].fork();
     let b0 = w.initial[member].fork();
+    let root_epoch = w.nodes[&vec![]].core.epoch;
+    let start_epoch = a0.group_obs(&w.gid).and_then(|g| g.mls.map(|m| m.epoch)).unwrap_or(root_epoch);
     let sa = snap(&a0, w, &pool_ids, &wids);
     let sb = snap(&b0, w, &pool_ids, &wids);
     index.insert((sa.key_hash, sb.key_hash), 0);
@@ -88,8 +90,12 @@ pub fn explore_pairs(w: &World, member: &str, regime: Regime, max_pairs: usize, 
                 Action::Deliver(i) if w.pool[i].kind == EvKind::Commit => {
                     let sib = trace[..trace.len() - 1].iter().position(|x| matches!(x, Action::Deliver(j) if *j != i && w.pool[*j].kind == EvKind::Commit && w.pool[*j].node == w.pool[i].node));
                     let last_restart = trace.iter().rposition(|x| *x == Action::Restart);
+                    // a member whose start state is already past the contested epoch applied the competitor
+                    // (and took that epoch's snapshot) before the trace began: every restart in the trace is after it
+                    let passed_at_start = start_epoch > root_epoch + w.pool[i].node.len() as u64;
                     match (sib, last_restart) {
                         (_, None) => "no-restart",
+                        (None, Some(_)) if passed_at_start => "restart-after-competitor-applied",
                         (Some(p), Some(r)) if r > p => "restart-after-competitor-applied",
                         (Some(_), Some(_)) => "restart-before-competitor-applied",
                         (None, Some(_)) => "restart-no-competitor",
@@ -109,8 +115,24 @@ pub fn explore_pairs(w: &World, member: &str, regime: Regime, max_pairs: usize, 
                 );
                 continue; // do not explore beyond a divergence
             }
-            let oa = na.obs(&wids).to_string();
-            let ob = nb.obs(&wids).to_string();
+            // merging an auto-commit that each replica built with its own randomness gives each its own epoch
+            // secrets: compare everything but the value derived from them, and do not search beyond it
+            let own_random_merged = recs[si].rand_diverged && a == Action::MergeOwn;
+            let obs_of = |c: &Client| -> String {
+                let mut v = c.obs(&wids);
+                if own_random_merged {
+                    if let Some(gs) = v.get_mut("groups").and_then(|g| g.as_array_mut()) {
+                        for g in gs {
+                            if let Some(m) = g.get_mut("mls").and_then(|m| m.as_object_mut()) {
+                                m.remove("authenticator");
+                            }
+                        }
+                    }
+                }
+                v.to_string()
+            };
+            let oa = obs_of(&na);
+            let ob = obs_of(&nb);
             if oa != ob {
                 rep.finding(
                     format!("C11|obs-differs|{}|{restart_pos}", abs(&a)),
@@ -120,7 +142,8 @@ pub fn explore_pairs(w: &World, member: &str, regime: Regime, max_pairs: usize, 
                 continue;
             }
             let pend = na.group_obs(&w.gid).map(|g| g.pending_commit).unwrap_or(false) || nb.group_obs(&w.gid).map(|g| g.pending_commit).unwrap_or(false);
-            let rand_diverged = pend && (recs[si].rand_diverged || ra == "Proposal");
+            // sticky: the snapshot taken when another commit replaces the auto-commit still holds its blob
+            let rand_diverged = recs[si].rand_diverged || (pend && ra == "Proposal");
             let da = stable_dump(&na);
             let db = stable_dump(&nb);
             if da != db && !rand_diverged {
@@ -132,6 +155,10 @@ pub fn explore_pairs(w: &World, member: &str, regime: Regime, max_pairs: usize, 
                     format!("member {member}: after [{}] the database of the restarted replica differs", labels.join(" ; ")),
                     json!({"scenario": w.sc, "backend": "Sqlite", "member": member, "regime": format!("{regime:?}"), "trace": trace, "trace_labels": labels, "only_never_restarted": only_a, "only_restarted": only_b}),
                 );
+                continue;
+            }
+            if own_random_merged {
+                rep.add_count("pruned_after_own_random_commit_merged", 1);
                 continue;
             }
             let sa = snap(&na, w, &pool_ids, &wids);
